@@ -368,6 +368,8 @@ type c07Req struct {
 	EDNS   bool   `json:"edns,omitempty"`
 	DO     bool   `json:"do,omitempty"`
 	ECS    string `json:"ecs,omitempty"`
+	// CD sets the checking-disabled bit of the query (a validating stub does).
+	CD bool `json:"cd,omitempty"`
 	// DoH requests go through the real DoH handler (POST, wire format), whose
 	// response is recorded first and packed and written afterwards; Path is the
 	// URL path (a device ID may follow /dns-query/).
@@ -390,10 +392,12 @@ var c07Alphabet = []c07Req{
 	{Name: "p1-upstream-fails", Client: "10.1.0.1", Host: "upfail.test.", QType: dns.TypeA},
 	{Name: "doh-p1-blocked", Client: "10.4.0.1", Host: "blocked.test.", QType: dns.TypeA, EDNS: true, DoH: true, Path: "/dns-query/dev1"},
 	{Name: "doh-anon-clean", Client: "10.4.0.2", Host: "clean.test.", QType: dns.TypeA, DoH: true, Path: "/dns-query"},
+	{Name: "p1-clean-cd", Client: "10.1.0.1", Host: "clean.test.", QType: dns.TypeA, CD: true},
 }
 
 func (q c07Req) wire(id uint16) []byte {
 	m := vdns.NewReq(id, q.Host, q.QType, dns.ClassINET)
+	m.CheckingDisabled = q.CD
 	if q.EDNS {
 		m.SetEdns0(1232, q.DO)
 		if q.ECS != "" {
